@@ -7,6 +7,10 @@ Three runs: the base run, the run on (t0 + c, tf + c), and the time-reflected ru
  Oracle 2 (shift): the shifted run reaches the same final state: rounding model for fixed-step methods
           (K eps max|t| N L |y|), 50 (atol + rtol |y|) x amplification for adaptive / implicit ones; step counts differ
           by at most one (a last step of rounding size).
+ Part `history` (fixed-step explicit / splitting methods): operation lists of integrate(), integrate(t), `tf = ...` (incl.
+          targets within dt of t0 after the system has moved), `dt = ...`; model of the requested step D (constructor
+          value; replaced by an assignment; halved to half the distance when a call's target is nearer than D): every
+          recorded step of a call but the last has magnitude D, none is longer, the call ends on its target.
  Oracle 3 (reflection): the reflected grid is the negated grid and the states agree to 1e-12 relative (fixed step,
           IEEE arithmetic is sign symmetric) or tolerance level (adaptive / implicit).
 """
